@@ -128,3 +128,9 @@ if sys.argv and sys.argv[0].endswith("worker.py"):
                 _w()
         except Exception:   # noqa
             pass
+
+
+# KT4C: the translated kernels that have no caller in the library (dead code) are validated against the real compiled kernels here
+# (translator validation only: no theorem about them is an obligation; checks/harness/genkernels.py, owner "C10")
+from checks.harness import genkernels  # noqa: E402
+genkernels.install(globals(), "C10", gen_module=False)
